@@ -195,11 +195,12 @@ def run_seq(ctx, case):
         s = boot.fresh_script(text, path=path, project=project)
         first = [ask(s, m, k) for m, k in case["pool"]]
         between = [ask(s, m, k) for m, k in case["noise"]]
-        again = [ask(s, m, k) for m, k in case["pool"]]
-        # an extra query asked only AFTER the history, and every pool query, are also compared with a fresh Script:
-        # "the same query on the same text and project returns the same results" whatever was asked before
+        # an extra query asked only AFTER the history (directly after it, before anything else), and every pool query,
+        # are also compared with a fresh Script: "the same query on the same text and project returns the same results"
+        # whatever was asked before
         late = case.get("late") or case["noise"][-1]
         late_ans = ask(s, "infer" if late[0] == "oor" else late[0], late[1] + 1)
+        again = [ask(s, m, k) for m, k in case["pool"]]
         fresh = []
         for m, k in list(case["pool"]) + [("infer" if late[0] == "oor" else late[0], late[1] + 1)]:
             fs = jedi.Script(text, path=path, project=project)
